@@ -84,18 +84,24 @@ check('C20',
       TB + 'The independent formulation is supporting evidence and the failing-input search, not a proof.',
       'Coq proof + differential correspondence + implementation oracle + independent reference formulation', 'DESIGN.md 4 C20')
 check('C02',
-      'PARTIAL proof. Proved for all inputs and sizes (Props/C02.v): the in/out split of a contract step represents exactly the flows in '
-      '[min,max] and costs price x flow + spread x |flow| whenever one side is zero and never less; per-step limits are rate x step '
-      'length; a transport delivers at node 2 the flow leaving node 1 times the efficiency; the storage level obeys the recursion of '
-      'the statement and the tail-sum cost coefficients charge cost x dt x discount on (level - baseline) (Abel summation); take rows '
-      'are prorated; the portfolio problem is the direct sum of the asset blocks coupled only by the nodal rows with additive value. '
-      'Not proved: the composition into one optimum-equals-reference statement for arbitrary portfolios and the discount factor itself '
-      '(irrational power, oracle). Decided per instance instead: every model builder (contracts in all parameter forms, takes, '
-      'transports, storages, multi-commodity) is compared with the implementation, and on every generated portfolio EAO\'s optimum is '
-      'compared with the optimum of an independently written textbook LP (harness/ref.py, HiGHS) in which EAO\'s returned dispatch '
-      'must be feasible.',
-      TB + 'The independent formulation is supporting evidence and the failing-input search, not a proof; its own correctness is trusted.',
-      'Coq proof (building blocks, partial) + differential correspondence + independent reference LP per instance', 'DESIGN.md 4 C02')
+      'PARTIAL proof, composition proved for three asset classes. Proved for all inputs and sizes (Props/C02.v): (1) composition '
+      '(Reference.v): for any list of asset problems each realising a textbook object (admissible states, discounted cost, flows into '
+      'nodes) the assembled portfolio problem and the textbook program - all assets admissible, flows balanced at every node and step, '
+      'cost additive - have the same optimum; a feasible point decodes to a feasible state that costs no more and has exactly the '
+      'reported flows, every feasible state is reached by a feasible point of its cost, an optimal point decodes to an optimal state '
+      'and value = - cost; (2) instances: the model builders of Transport, Storage (one or two variables per step, charging efficiency, '
+      'in / out / holding costs, inflow, start / end level, two nodes) and SimpleContract (single variable or in/out split with a '
+      'non-negative spread) on a fine grid realise the textbook transport / storage (level recursion in [0,size], end level, rate x '
+      'step length) / contract; a boolean test of the instance hypotheses is proved sufficient (RefCorr.v) and evaluated on every '
+      'generated portfolio of these classes; (3) building blocks for all classes: in/out split, limits = rate x step length, transport '
+      'flows, level recursion, holding cost by Abel summation, take prorating, portfolio = direct sum + nodal rows. Not proved: '
+      'instances for take rows, MultiCommodityContract, ExtendedTransport, coarse / periodic grids and the storage binaries; the '
+      'discount factor itself (irrational power, data). Decided per instance: every model builder is compared with the implementation; '
+      'for portfolios of the covered classes Coq evaluates the textbook program on EAO\'s result (value = - textbook cost, reported '
+      'dispatch = textbook flows, nodal balance); for all classes EAO\'s optimum is compared with the optimum of an independently '
+      'written textbook LP (harness/ref.py, HiGHS) in which EAO\'s returned dispatch must be feasible.',
+      TB + 'The independent formulation harness/ref.py is supporting evidence and the failing-input search, not a proof; its own correctness is trusted.',
+      'Coq proof (composition + three instances; other classes: building blocks) + differential correspondence + textbook program evaluated in Coq + independent reference LP per instance', 'DESIGN.md 4 C02')
 check('C15',
       'Theorems (any problem, any mapping with any number of rows per variable, any window, any previous point): exactly the variables '
       'having a mapping row at a step of the window get l = u = previous value, every other bound, the costs, rows and mapping are '
@@ -229,13 +235,18 @@ check('C06',
       'first step relative to the last dispatch; start flags dominate the transitions and the flags set exactly at the transitions '
       'keep every row satisfied (so positive start costs / fuel charge exactly the transitions); heat <= share x power; the fuel '
       'factors give output / efficiency + running + start consumption; the same run-length statements are proved for the row lists '
-      'the model builder emits (PlantRows.v: pl_rows_start / pl_rows_rt / pl_rows_dt evaluate to exactly these inequalities). The model builder Plant.v (Plant and CHPAsset with on / start '
-      'binaries, capacity, ramp, start, run-time, down-time, heat rows, initial-state bounds, fuel mapping; no start / shutdown ramp '
-      'profiles) is compared with the implementation; on the implementation every optimised plant portfolio is checked from x '
-      '(capacity, ramps incl. first step, start flags, run lengths incl. declared initial state, heat share, fuel drawn, cash flow), '
-      'and for T <= 6 all 2^T on/off patterns are pinned through bounds and their feasibility compared with the run-length '
-      'specification.',
-      TB + 'Not proved and not modelled: start / shutdown ramp PROFILES (their rows are exercised by the repository tests only); the '
-      'link between the abstract row inequalities and the list of rows Plant.v emits is by the row-shape lemmas and the correspondence '
-      'run, not one theorem about the builder. Durations are converted to steps by the documented rounding up (harness side).',
+      'the model builder emits (PlantRows.v: pl_rows_start / pl_rows_rt / pl_rows_dt evaluate to exactly these inequalities); start / '
+      'shutdown ramp profiles (PlantProfiles.v): j steps after a flagged start (j+1 steps before a flagged shutdown) the j-th profile '
+      'values bound the output instead of the capacities, without a flag in reach the capacities apply, and with the separation row the '
+      'start and shutdown flags are exactly the transitions. The model builder Plant.v (Plant and CHPAsset with on / start / shutdown '
+      'binaries, capacity rows with profile terms, ramp rows and their release during profiles, start / shutdown definition, run-time, '
+      'down-time, heat rows, initial-state bounds and rows, fuel mapping, time-varying capacity) is compared with the implementation, '
+      'also on a second set-up of the same objects; on the implementation every optimised plant portfolio is checked from x (capacity '
+      'or profile window, ramps incl. first step, start flags, run lengths incl. declared initial state and profile lengths, heat '
+      'share, fuel drawn, cash flow), and for T <= 6 all 2^T on/off patterns are pinned through bounds and their feasibility compared '
+      'with the run-length specification (units without profiles).',
+      TB + 'Not modelled: separate heat profiles and profiles in another frequency than the grid (interpolation); the release of the ramp '
+      'rows during profiles is tied by correspondence only; the link between the abstract row inequalities and the list of rows Plant.v '
+      'emits is by the row-shape lemmas and the correspondence run, not one theorem about the builder. Durations are converted to steps '
+      'by the documented rounding up (harness side).',
       'Coq proof (run-length characterisation of the rows, partial) + differential correspondence + pattern enumeration on the implementation', 'DESIGN.md 4 C06')
